@@ -3,6 +3,7 @@
    Same operational model and specification as C03 (Model/ExpressPipeline.v, Spec/ExpressSpec.v). *)
 From NDN Require Import Base.Prelude Spec.ExpressSpec Model.ExpressPipeline.
 From NDN Require Import Proofs.ExpressSafety Proofs.ExpressRefine Proofs.ExpressMain Proofs.ExpressC05.
+From NDN Require Import Generated.ValidResultConsts Proofs.ValidResultAgree.
 Local Open Scope N_scope.
 
 (* a Data packet is returned only if the validator supplied with that Interest accepted it:
@@ -48,6 +49,17 @@ Theorem C05_gate_exact (fe : frontend) (f : list (name * (N * bool))) (k : inc) 
   (exists p, lpm f (k_name k) = Some (p, (hd, hasv))) /\ may_deliver fe hasv k = true.
 Proof. exact (gate_iff fe f k hd hasv). Qed.
 Print Assumptions C05_gate_exact.
+
+(* the verdict table used above is the one of the source: ValidResult as reflected from ndn.types on this run *)
+Theorem C05_verdict_table_matches_source :
+  valid_result_members = [(n_FAIL, -2); (n_TIMEOUT, -1); (n_SILENCE, 0); (n_PASS, 1); (n_ALLOW_BYPASS, 2)]%Z /\
+  map (fun m => pass V2 (vr_index (snd m))) valid_result_members = [false; false; false; true; true] /\
+  norm_verdict V2 5 = vr_index (-1) /\
+  validation_failure_default_result = n_FAIL /\ norm_verdict V1 1 = vr_index (-2) /\
+  valid_result_members_all_truthy = true /\
+  legacy_default_int_validator_is_sha256_digest_checker = true.
+Proof. exact valid_result_table. Qed.
+Print Assumptions C05_verdict_table_matches_source.
 
 (* non-vacuity *)
 Definition ex_c05 : list (tie * ev) :=
